@@ -7,6 +7,8 @@ From Verif Require Import UnionModel UnionProofs UnionDeep UnionDeepProofs Union
 From VerifGen Require Import K19.
 From Verif Require PackEmit K21Proofs.
 From Verif Require Import UnionDeepEnc UnionDeepEncProofs.
+From Verif Require LitEmit K22Proofs PyLit PyLitProofs PyStrLit.
+From VerifGen Require K22.
 From VerifGen Require K21.
 Import ListNotations.
 Open Scope string_scope.
@@ -374,6 +376,32 @@ Lemma C11_literal_cross_type_rejected :
   lit_dec (fun _ => None) [LEnum (UInt 1) (UObj "Lvl" "<Lvl.LO: 1>")] (UBool true) = None /\
   lit_enc (fun _ => None) [LEnum (UInt 1) (UObj "Num" "<Num.ONE: 1>"); LBool true] (UBool true) = Some (Some (UBool true)).
 Proof. repeat split; reflexivity. Qed.
+
+(* ---------- K22: the translated loops of the Literal unpacker and packer builders ---------- *)
+Theorem C11_literal_emit_correct : forall bdec lits v,
+  LitEmit.run_ulines bdec (K22.emit_unpack lits) v = lit_dec bdec lits v.
+Proof. exact K22Proofs.emit_unpack_correct. Qed.
+Print Assumptions C11_literal_emit_correct.
+
+(* hence the Literal unpacker the current source emits accepts exactly the listed values *)
+Theorem C11_literal_emitted_full : forall bdec lits v, lit_nofloat lits = true ->
+  LitEmit.run_ulines bdec (K22.emit_unpack lits) v = ref_lit bdec lits v.
+Proof. intros. rewrite K22Proofs.emit_unpack_correct. apply lit_dec_full; assumption. Qed.
+Print Assumptions C11_literal_emitted_full.
+
+Theorem C11_literal_pack_emit_correct : forall benc lits v,
+  LitEmit.run_klines benc (K22.emit_pack lits) v = K22Proofs.flat2 (lit_enc benc lits v).
+Proof. exact K22Proofs.emit_pack_lit_correct. Qed.
+Print Assumptions C11_literal_pack_emit_correct.
+
+(* the comparison text spliced for a listed str / bytes / int / bool / None value (literal_repr = the builtin
+   repr, C16's PyLit.render_lit) denotes that value in both contexts the builders use it:
+   `... == <text>:` and `(<text>).__class__` *)
+Theorem C11_literal_text_denotes : forall p v rest, PyStrLit.oracle_ok p -> PyLit.wf_lit v ->
+  PyLit.eval_lit (PyLit.render_lit p v ++ 58%N :: rest) = Some (v, 58%N :: rest) /\
+  PyLit.eval_lit (PyLit.render_lit p v ++ PyLit.RP :: rest) = Some (v, PyLit.RP :: rest).
+Proof. intros p v rest Hp Hw. split; apply PyLitProofs.render_eval; auto. Qed.
+Print Assumptions C11_literal_text_denotes.
 
 (* ---------- non-vacuity: the hypotheses hold on non-trivial instances ---------- *)
 
